@@ -27,6 +27,10 @@ class RunSpec:
         self.edit_fn = edit_fn        # optional: net -> None, applied after build (symbolic edits)
         self.fluid_kwargs = fluid_kwargs or {}
         self.cell_map = cell_map
+        self.havoc_xform = None
+        self.x_xform = None
+        self.name_map = None
+        self.signs = None           # unknown key "kind|name" -> -1 for sign-flipped coordinates
 
 
 LOAD_TABLES = ("sink", "source", "mass_storage")
@@ -36,6 +40,7 @@ def _run(rs, names_out):
     import pandapipes as pp
     is_gas = rs.spec["fluid"] != "water"
     H.CTX.ident = rs.ident
+    H.CTX.havoc_xform, H.CTX.x_xform, H.CTX.name_map = rs.havoc_xform, rs.x_xform, rs.name_map
     net, names = nets.build(rs.spec, nets.sym_valuer(), fluid=stubs.make_sym_fluid(is_gas, **rs.fluid_kwargs),
                             ident=rs.ident, **rs.build_kwargs)
     names_out.update(names)
@@ -81,7 +86,7 @@ def default_cells(neta, netb, row_map=None):
         tbl = key[4:]
         for ix in ta.index:
             jx = row_map(tbl, ix) if row_map else ix
-            if jx is None:
+            if jx is None or jx not in tb_.index:
                 continue
             for col in ta.columns:
                 if col not in tb_.columns:
@@ -90,15 +95,17 @@ def default_cells(neta, netb, row_map=None):
     return out
 
 
-def system_obligations(sa, sb, label):
+def system_obligations(sa, sb, label, signs=None, compare_j=True):
     """entry-by-entry equality of two captured systems, matched by unknown identity"""
     obs = []
+    if sa.get("x") is None:       # fixed-point mode: no update unknowns were created
+        return _b_obligations(sa, sb, label, signs)
     xa, xb = sa.get("xnames"), sb.get("xnames")
     if xa is None or xb is None:
         return obs, ["system without identity names"]
     # strip the stage counter/tag: dx<k>[kind|name] -> kind|name
-    ka = [n.split("[", 1)[1] for n in xa]
-    kb = [n.split("[", 1)[1] for n in xb]
+    ka = [n.split("[", 1)[1][:-1] for n in xa]
+    kb = [n.split("[", 1)[1][:-1] for n in xb]
     if sorted(ka) != sorted(kb):
         return obs, ["unknown sets differ: only in A %s, only in B %s" % (sorted(set(ka) - set(kb))[:4],
                                                                           sorted(set(kb) - set(ka))[:4])]
@@ -106,21 +113,40 @@ def system_obligations(sa, sb, label):
     ea, eb = sa["entries"], sb["entries"]
     zero = 0.0
     seen = set()
-    for (r, c), v in ea.items():
+    sg = lambda k: (signs or {}).get(k, 1)     # noqa
+    for (r, c), v in (ea.items() if compare_j else []):
         rb, cb = pos_b[ka[r]], pos_b[ka[c]]
         seen.add((rb, cb))
         w = eb.get((rb, cb), zero)
-        obs.append(("%s J[%s, %s]" % (label, ka[r], ka[c]), v, w))
-    for (rb, cb), w in eb.items():
+        obs.append(("%s J[%s, %s]" % (label, ka[r], ka[c]), v, w * (sg(ka[r]) * sg(ka[c]))))
+    for (rb, cb), w in (eb.items() if compare_j else []):
         if (rb, cb) not in seen:
             obs.append(("%s J[%s, %s]" % (label, kb[rb], kb[cb]), zero, w))
     for r in range(sa["n"]):
-        obs.append(("%s b[%s]" % (label, ka[r]), sa["b"][r], sb["b"][pos_b[ka[r]]]))
+        obs.append(("%s b[%s]" % (label, ka[r]), sa["b"][r], sb["b"][pos_b[ka[r]]] * sg(ka[r])))
     return obs, []
 
 
+def _b_obligations(sa, sb, label, signs):
+    """residual rows only (fixed-point mode): rows are matched by unknown identity"""
+    def keys(s):
+        nn, bn = s["node_names"], s["branch_names"]
+        if s.get("heat"):
+            return ["T|" + a for a in nn] + ["Tout|" + a for a in bn]
+        k = ["p|" + a for a in nn] + ["m|" + a for a in bn]
+        return k + ["msl|#%d" % i for i in range(s["n"] - len(k))]
+    ka, kb = keys(sa), keys(sb)
+    if sorted(ka) != sorted(kb):
+        return [], ["unknown sets differ: only in A %s, only in B %s" % (sorted(set(ka) - set(kb))[:4],
+                                                                         sorted(set(kb) - set(ka))[:4])]
+    pos_b = {k: i for i, k in enumerate(kb)}
+    sg = lambda k: (signs or {}).get(k, 1)     # noqa
+    return [("%s b[%s]" % (label, ka[r]), sa["b"][r], sb["b"][pos_b[ka[r]]] * sg(ka[r])) for r in range(sa["n"])], []
+
+
 def equiv_worker(job, ra, rb, fp_prefix, replay_kind, witnesses_fn=None, cells_fn=None, max_cands=3,
-                 compare_systems=True, extra_assumptions=None, start_state_fn=None, replay_extra=None):
+                 compare_systems=True, extra_assumptions=None, start_state_fn=None, replay_extra=None,
+                 fixed_point=False):
     spec = ra.spec
     names = {}
     holder = {}
@@ -155,13 +181,17 @@ def equiv_worker(job, ra, rb, fp_prefix, replay_kind, witnesses_fn=None, cells_f
     base = dict(nm0, **names)
     ws = witnesses_fn(base, p0, job) if witnesses_fn else [H.Witness(dict(base)), H.Witness(dict(base), kinds={"m": -0.6})]
     viol, errs = [], []
+    # fixed-point mode: both descriptions are evaluated at the same state with a zero update; the
+    # residual rows (not the Jacobians) and the reported values are compared
+    stubs.CTX.spsolve_mode = 'fixed_point' if fixed_point else 'free'
     npaths = 0
     exa_all = H.Exploration()
     for wi, w in enumerate(ws):
         wa = H.Witness(dict(w), kinds=w.kinds)
         exa = H.explore_witnesses(run_a, [wa], A)
         pa = exa.paths[0]
-        wb = H.Witness(dict(w), kinds=w.kinds)
+        wb = H.Witness(dict(pa.witness), kinds=w.kinds)      # same state and same update as run A
+        wb.pop("__singular__", None)
         exb = H.explore_witnesses(run_b, [wb], A)
         pb = exb.paths[0]
         npaths += 2
@@ -178,8 +208,8 @@ def equiv_worker(job, ra, rb, fp_prefix, replay_kind, witnesses_fn=None, cells_f
         (neta, na_pre), (netb, nb_pre) = pa.value, pb.value
         # hypotheses: assumptions, both paths, A's linear-solve contract
         hy = list(A) + pa.facts + pb.facts + pa.path + pb.path + pa.assumed + pb.assumed + pa.defined + pb.defined
-        hy_lin = hy + pa.lin
-        bad = H.reach_by_witness(pa)
+        hy_lin = hy + (pa.lin if not fixed_point else [])
+        bad = H.reach_by_witness(pa) if not fixed_point else []
         if bad:
             errs.append("witness %d does not satisfy A's hypotheses: %s" % (wi, D._short(bad[0], 160)))
         obs = []
@@ -190,7 +220,7 @@ def equiv_worker(job, ra, rb, fp_prefix, replay_kind, witnesses_fn=None, cells_f
                              "replay": dict({"kind": replay_kind, "spec": spec, "specB": rb.spec, "values": {},
                                              "numba": job.get("numba"), "pfmode": job.get("pfmode")}, **(replay_extra or {}))})
             for k, (sa, sb) in enumerate(zip(sysa, sysb)):
-                o, e = system_obligations(sa, sb, "system %d" % k)
+                o, e = system_obligations(sa, sb, "system %d" % k, signs=rb.signs)
                 errs += e
                 obs += [("system", lab, a, b) for lab, a, b in o]
         cells = cells_fn(neta, netb) if cells_fn else default_cells(neta, netb, rb.row_map)
@@ -218,12 +248,17 @@ def equiv_worker(job, ra, rb, fp_prefix, replay_kind, witnesses_fn=None, cells_f
                     goal = _t(a) == _t(b)
             if goal is not None:
                 r, m, how = D.check(hy_lin if kind == "result" else hy, goal, sample="%s %s" % (job["name"], lab),
-                                    timeout_ms=10000, witness=(pa.witness, H.witness_funcs()))
+                                    timeout_ms=4000, witness=(pa.witness, H.witness_funcs()))
             else:
                 r, m = 'sat', None
             import os as _os
             if _os.environ.get("SVX_DEBUG") and not (goal is not None and how == 'rewriter'):
-                print("DEBUG", kind, lab, r, how if goal is not None else "-", flush=True)
+                from .evalterm import evaluate as _ev
+                try:
+                    va, vb = _ev(_t(a), pa.witness, H.witness_funcs()), _ev(_t(b), pa.witness, H.witness_funcs())
+                except Exception as _e:
+                    va = vb = repr(_e)
+                print("DEBUG", kind, lab, r, how if goal is not None else "-", va, vb, flush=True)
             if r == 'sat':
                 viol.append({"fingerprint": fp, "detail": {"job": job["name"], "what": lab, "witness": wi},
                              "replay": dict({"kind": replay_kind, "spec": spec, "specB": rb.spec,
@@ -233,6 +268,7 @@ def equiv_worker(job, ra, rb, fp_prefix, replay_kind, witnesses_fn=None, cells_f
             elif r == 'unknown':
                 job.setdefault("_inconclusive", []).append(lab)
     H.CTX.ident = {}
+    stubs.CTX.spsolve_mode = 'free'
     return finish_worker(job, exa_all, viol, errors=errs)
 
 
